@@ -58,6 +58,8 @@ def gen_scn(r):
     x = r.random()
     if x < 0.25:
         s['raise_at'] = r.randint(0, len(body))
+        s['raise_kind'] = r.choice(['body-error', 'body-error', 'KeyboardInterrupt', 'SystemExit',
+                                    'GeneratorExit'])
     elif x < 0.35 and not s['overwrite'] and s['dest'] == 'absent':
         s['intruder'] = True
     if r.random() < 0.15:
@@ -119,7 +121,7 @@ def judge(scn, res, fault_events, stats):
     # an exception reached the caller
     if not fault_events and not refused_expected and not body_fails and not intruder:
         out.append(('spurious-exception', 'fault-free save raised %r' % (exc,)))
-    if body_fails and not fault_events and not isinstance(exc, F.BodyError) and not refused_expected:
+    if body_fails and not fault_events and not isinstance(exc, F.BODY_EXC[scn.get('raise_kind', 'body-error')]) and not refused_expected:
         out.append(('body-exception-replaced', 'caller saw %r instead of the body\'s exception' % (exc,)))
     if published:
         if after['dest'] is None or after['dest']['bytes'] != want:
